@@ -1,5 +1,5 @@
 """Per-property check definitions."""
-from .common import Check, Job, RJSON, FP, prefix_splits
+from .common import Check, Job, RJSON, FP, prefix_splits, _tmpl_str
 
 BUFMODES_QUICK = [0, 1, 2, 4]          # nil, fresh, used len 0, used len 2
 BUFMODES_THOROUGH = [0, 1, 2, 3, 4, 14]  # ... used len 1, len 12 (> any depth reachable at these N)
@@ -295,7 +295,7 @@ TREE_TEMPLATES = [
 
 
 def _tmplstr(t):
-    return ''.join(('?' * x) if isinstance(x, int) else x.decode('latin1') for x in t)
+    return _tmpl_str(t)
 
 
 def check_C03(tier, nproc=None):
@@ -407,6 +407,44 @@ def check_C16(tier, nproc=None):
     _std(c, ['strings are values in the encoding: a result aliasing a buffer through package unsafe cannot be represented; such code is reported as an unsupported construct (no verdict) and is only caught by the native replay of sampled inputs',
              'every store through a pointer into an input object is a monitored event (write-to-input) besides the explicit comparison with a snapshot'])
     c.outside = ['inputs longer than the bounds', 'aliasing created with package unsafe (see assumptions)']
+    c.run_jobs(nproc)
+    c.confirm()
+    return c.finish()
+
+
+def check_C04(tier, nproc=None):
+    c = Check('C04', tier, level='model_checking')
+    # tier 1: scanner on all strings and on long-literal templates
+    N = 5 if tier == 'quick' else 7
+    for n in range(0, N + 1):
+        c.add(Job('vH_FP_scan', [('bytes', 'd', n)], pkg=FP, weight=3 ** n))
+    D = 'digit'
+    T = [[(18, D), 3], [b'-', (20, D), 1], [(2, D), b'.', (18, D), 1], [b'0.000', (17, D), 1], [(1, D), b'e', 1, (4, D), 1], [(3, D), b'.', (2, D), b'E-', (3, D), 1],
+         [(17, D), 1, (2, D), b'e+', (2, D)], [1, (2, D), 2, (2, D), 1]]
+    if tier != 'quick':
+        T += [[(22, D), 1], [(1, D), b'.', (21, D)], [b'0.', (22, D)], [(9, D), b'.', (11, D), b'e', (2, D), 1], [(1, D), b'e-', (6, D)], [b'-', 1, b'.', 1, b'e', 1, 1, 1],
+              [(19, D), 1, (2, D)], [(16, D), 2, (3, D), 1]]
+    for t in T:
+        c.add(Job('vH_FP_scan', [('tmpl', 'd', t)], pkg=FP, weight=4000))
+    # tier 3: Eisel-Lemire, one obligation set per table row (all 2^63 normalised mantissas per row)
+    o = {'bits_intrinsics': True}
+    rows = list(range(-348, 348))
+    for e10 in rows:
+        c.add(Job('vH_EL', [('int', e10), ('int', 0), ('bool', False)], pkg=FP, weight=1000, opts=o))
+    extra_clz = [1, 63] if tier == 'quick' else [1, 2, 3, 10, 11, 31, 52, 53, 62, 63]
+    step = 29 if tier == 'quick' else 1
+    for e10 in rows[::step]:
+        for k in extra_clz:
+            c.add(Job('vH_EL', [('int', e10), ('int', k), ('bool', False)], pkg=FP, weight=900, opts=o))
+        c.add(Job('vH_EL', [('int', e10), ('int', 0), ('bool', True)], pkg=FP, weight=900, opts=o))
+    c.bounds = {'scanner_all_strings': N, 'scanner_templates': [_tmplstr(t) for t in T],
+                'eisel_lemire': 'every one of the 696 table rows x every 64-bit mantissa with 0 leading zeros; leading-zero counts %s on %s rows; negative sign on the same rows' % (extra_clz, 'every 29th' if tier == 'quick' else 'all')}
+    c.must_reach = ['C04.scan-returned', 'C04.scan-ok', 'C04.el-returned', 'C04.el-ok']
+    _std(c, ['R-ROUND (engine/gosym/fpspec.py): nearest binary64 with ties to even, as linear integer inequalities per exponent field; validated natively with math/big in replays',
+             'math/bits.Mul64 and LeadingZeros64 are exact term-level intrinsics'])
+    c.outside = ['tier 2 (atof64exact float arithmetic) and tier 4 (order of the tiers, truncation re-check) are not encoded in this check',
+                 'the multi-precision decimal fallback (decimal.set, floatBits, shifts): literals with more than 19 significant digits whose bounds disagree, exact halfway cases, exponents beyond +-347, subnormal and overflowing magnitudes are NOT established end to end',
+                 'literals longer than the scanner bounds']
     c.run_jobs(nproc)
     c.confirm()
     return c.finish()
